@@ -111,7 +111,12 @@ func cmdCheck(args []string) {
 		}
 		fnList = append(fnList, k)
 		obls = append(obls, g.autoCanaries()...)
-		obls = append(obls, g.obls...)
+		for _, o := range g.obls {
+			if len(o.Props) > 0 && !hasProp(o.Props, pid) {
+				continue
+			}
+			obls = append(obls, o)
+		}
 		for a := range g.assumptions {
 			assumptions[a] = true
 		}
@@ -153,10 +158,16 @@ func cmdCheck(args []string) {
 		}
 		obls = keep
 	}
-	results := SolveAll(obls, SolveOpts{Solvers: solverList, TimeoutS: timeout, Workdir: work, Parallel: 8})
+	known := loadKnown(filepath.Join(verif, "known_findings.json"))
+	short := map[string]bool{}
+	for _, k := range known {
+		if k.Status == "open" && k.Property == pid {
+			short[k.Obligation] = true
+		}
+	}
+	results := SolveAll(obls, SolveOpts{Solvers: solverList, TimeoutS: timeout, Workdir: work, Parallel: 8, ShortFor: short})
 	results = append(results, structural...)
 
-	known := loadKnown(filepath.Join(verif, "known_findings.json"))
 	baselinePath := filepath.Join(verif, "baseline", pid+".json")
 	var baseline []string
 	if b, err := os.ReadFile(baselinePath); err == nil {
